@@ -2,7 +2,7 @@
 # regenerates contracts/deps/cupcake-rdb-encoder.spec from the Encoder contracts of the in-repo cupcake hook file
 import re
 src=open('/repo/src/pkg/libs/cupcake/rdb/zz_contracts_verif.go').read().split('\n')
-want=['EncodeLength','EncodeType','encodeIntString','EncodeString','EncodeDatabase','EncodeExpiry']
+want=['EncodeLength','EncodeType','encodeIntString','EncodeString','EncodeDatabase','EncodeExpiry','EncodeFloat']
 out=["// Contracts of the dependency github.com/cupcake/rdb (module cache), which pkg/rdb's EncodeDump and file encoder use:",
      "// the same contracts as for the in-repo copy pkg/libs/cupcake/rdb (generated from its hook file by contracts/deps/gen_cupcake_rdb.py),",
      "// checked against the dependency's own source.",""]
